@@ -6,7 +6,7 @@ set -u
 export GOFLAGS=-mod=mod GOPROXY=off GOSUMDB=off GOTOOLCHAIN=local
 cd /verif
 if [ -n "$(git -C /repo status --short)" ]; then echo "/repo is not clean"; exit 3; fi
-DIRS=${@:-$(cd /verif && ls -d seeded/C*)}
+DIRS=${@:-$(cd /verif && ls -d seeded/C[0-9]*)}
 OUT=/verif/SEEDMATRIX.md
 { echo "# Seeded changes x targeted quick check"; echo; echo "Regenerate with tools/seedmatrix.sh (applies each seeded/<id>/patch.diff to /repo, runs ./check.sh <property> quick, reverts)."; echo; echo "| seed | check | exit | first signature |"; echo "|---|---|---|---|"; } > $OUT.tmp
 miss=0
